@@ -78,14 +78,19 @@ def run(ctx):
                 "the recovered Commune must carry no custom transcript (T = None), so verification uses the default label; found %s" % S(T, 3),
                 ctx.fn("adss::recover").loc)
         gates = [t for k, t in (g or []) if k == "recv_mac"]
+        tr = None
         if gates:
             tr = Q.trace_of(gates[0].args[1])
-            lab = Q.consts(Q.leaves(tr[0][1])) if tr and tr[0][0] == "new" else None
-            ctx.add("C16.R4", "adss::recover#verifies-under-default-label", lab == {"adss"},
-                    "recover must verify under Strobe::new(\"adss\"); transcript starts with %s" % Q.show_trace(tr[:1], 3),
-                    ctx.fn("adss::recover").loc, sample=Q.show_trace(tr, 3))
-    # share and verify build the same authenticated transcript, including the optional custom transcript T
-    c05.transcript_agreement(ctx, "C16.R2", "C16.R2", strict=False)
+        else:
+            for t in gw or []:
+                outs = Q.find_all(t, lambda z: z.op == "owf" and z.args[0] in ("send_mac", "prf", "recv_mac"))
+                if outs:
+                    tr = Q.trace_of(outs[0].args[1])
+                    break
+        lab = Q.consts(Q.leaves(tr[0][1])) if tr and tr[0][0] == "new" else None
+        ctx.add("C16.R4", "adss::recover#verifies-under-default-label", lab == {"adss"},
+                "recover must verify under Strobe::new(\"adss\"); transcript starts with %s" % (Q.show_trace(tr[:1], 3) if tr else None),
+                ctx.fn("adss::recover").loc, sample=Q.show_trace(tr, 3) if tr else None)
     ctx.floor("C16.R2", 6)
     ctx.floor("C16.R4", 2)
 
